@@ -49,6 +49,8 @@ def key_of(stream, c, back):
         return {"ord": list(d.keys()), "ix": list(d.values()), "la": enc.last_assigned_index, "lu": enc.last_reused_index}
 
     rep = [back.get(id(t), None) if t is not None else ["none"] for t in stream.repeated_terms]
+    if any(r is None for r in rep):
+        raise AttributeError("Stream.repeated_terms does not hold the term objects of the previous statement")
     return {"N": tab(stream.encoder.names), "P": tab(stream.encoder.prefixes), "D": tab(stream.encoder.datatypes),
             "rep": rep, "gcur": ["none"], "buf": (len(stream.flow) if c["FrameSize"] else 0)}
 
